@@ -18,7 +18,8 @@ import Cirbo.Proofs.RemoveGate
 -- OBLIGATION: c02_remove_block_invariant
 -- OBLIGATION: c02_history_extended
 -- OBLIGATION: c02_right_connection_invariant
--- PARTIAL: the invariant theorem covers add_gate/emplace_gate, add_inputs, mark_as_output, set_outputs, set_inputs, order_inputs, order_outputs, replace_inputs, make_block, delete_block, remove_gate, remove_block, rename_gate, copy, make_block_from_slice and every connection in either direction (connect_circuit, connect_left, connect_right, connect_inputs, extend_circuit, add_circuit; for the right direction the loop invariant is the C02 invariant of the circuit with its input list recomputed, because the stored list names already-replaced inputs until the final set_inputs) — and into_bench (C14: c14_into_bench_keeps_invariant). replace_subcircuit is modelled one-to-one (Model/Mutate.lean, Mutate2.lean) and compared field by field with the code after every call of random histories, and every state the code produces goes through the Lean checker checkWFU, but its invariant lemma is not proved yet. "A copy is equal to its original" and "shares no mutable state" are correspondence-only (Lean values cannot alias).
+-- OBLIGATION: c02_replace_subcircuit_invariant
+-- PARTIAL: the invariant theorem covers add_gate/emplace_gate, add_inputs, mark_as_output, set_outputs, set_inputs, order_inputs, order_outputs, replace_inputs, make_block, delete_block, remove_gate, remove_block, rename_gate, copy, make_block_from_slice and every connection in either direction (connect_circuit, connect_left, connect_right, connect_inputs, extend_circuit, add_circuit; for the right direction the loop invariant is the C02 invariant of the circuit with its input list recomputed, because the stored list names already-replaced inputs until the final set_inputs) — and into_bench (C14: c14_into_bench_keeps_invariant). replace_subcircuit is covered too (c02_replace_subcircuit_invariant, and as a history step in c02_history_extended) — its proof needs the final cycle check to walk the whole graph, which is what the fix 4cd9e3a made it do. "A copy is equal to its original" and "shares no mutable state" are correspondence-only (Lean values cannot alias).
 -/
 namespace Cirbo
 
@@ -87,6 +88,13 @@ theorem c02_right_connection_invariant {c other c' : Circuit} {thisC otherC : Li
     {addP : Bool} (hw : WFS c) (hwo : WFS other)
     (h : c.connectCircuit other thisC otherC true name addP = .ok c') : WFS c' := connectRight_wfs hw hwo h
 
+/-- `replace_subcircuit` (any replacement circuit satisfying the invariant, mappings with distinct
+keys, any uuid for the temporary block): whenever it returns, the invariant holds -/
+theorem c02_replace_subcircuit_invariant {c sub c' : Circuit} {im om : List (Label × Label)} {uuid k' : Nat}
+    (hw : WFS c) (hs : WFS sub) (hik : (im.map (·.1)).Nodup) (hok : (om.map (·.1)).Nodup)
+    (h : c.replaceSubcircuit sub im om uuid = .ok (c', k')) : WFS c' :=
+  replaceSubcircuit_wfs hw hs hik hok h
+
 /-- histories over the extended set of calls -/
 theorem c02_history_extended (ops : List XOp) {c c' : Circuit} (hw : WFS c)
     (hv : ∀ op ∈ ops, op.valid) (h : runXOps c ops = .ok c') : WFS c' := runXOps_wfs ops hw hv h
@@ -112,5 +120,6 @@ example : ∃ c', runOps Circuit.empty
 #print axioms c02_history_extended
 
 #print axioms c02_right_connection_invariant
+#print axioms c02_replace_subcircuit_invariant
 
 end Cirbo
